@@ -169,11 +169,13 @@ pub fn convert_events(evs: &[Event], st: &DefaultSettings<f64>, icones: &[ConeSp
                     "thr_p": fj(-st.tol_infeas_rel * dot_bz), "thr_d": fj(-st.tol_infeas_rel * dot_qx),
                     "rthr_p": fj(-st.reduced_tol_infeas_rel * dot_bz),
                     "rthr_d": fj(-st.reduced_tol_infeas_rel * dot_qx),
+                    "digest": if e.v.len() == 3 { digest(&[&e.v[0], &e.v[1], &e.v[2], &[f[19], f[20]]]) } else { String::new() },
                 }, "digest": if e.v.len() == 3 { digest(&[&e.v[0], &e.v[1], &e.v[2], &[f[19], f[20]]]) } else { String::new() }})
             }
             "PrintStatus" => json!({"ev": "PrintStatus", "iter": e.i[0]}),
             "Check" => json!({"ev": "Check", "iter": e.i[0], "status": e.i[1], "iterations": e.i[2]}),
-            "Rollback" => json!({"ev": "Rollback"}),
+            "Rollback" => json!({"ev": "Rollback", "tau": fj(e.f[0]), "kappa": fj(e.f[1]),
+                "digest": if e.v.len() == 3 { digest(&[&e.v[0], &e.v[1], &e.v[2], &[e.f[0], e.f[1]]]) } else { String::new() }}),
             "SetStatus" => json!({"ev": "SetStatus", "status": e.i[0]}),
             "Ckpt" => json!({"ev": "Ckpt", "kind": e.i[0], "out": e.i[1]}),
             "Scale" => json!({"ev": "Scale", "iter": e.i[0], "ok": e.i[1] != 0, "dual": e.i[2] != 0}),
